@@ -4,8 +4,8 @@ import json
 
 T_PYVC = "contract-based deductive verification (pyvc: real Python ASTs + sidecar contracts -> VCs -> z3/cvc5)"
 CLAIMS = {
- "C01": ("proof", "5.1", "Call-site precondition of Operation.start_execution (every dependency SUCCEEDED) proved at the only call site for all graphs/orders; SUCCEEDED is only set after finish_execution returned normally (exit status 0 of a reaped pid); waiting_on == number of uncompleted dependencies (counting lemmas by induction) so an operation becomes ready only when all its dependencies completed. Planner edges: bounded (exhaustive small DAGs) until the planner proof is finished; known finding K1 (dependency reached only through a cached task).", T_PYVC + " + bounded planner / executor runs"),
- "C02": ("other", "5.2", "Executor side proved (each ready operation is dequeued once: phases 0->1->2->3 are monotone, queues duplicate-free); planner side (each task lowered once, executed set = needed closure, cached/executed disjoint) is decided by the bounded stand-in only: exhaustive enumeration of all DAGs with <= 4 tasks x listing orders x kinds x cache flags x modes on the real planner. Labelled bounded, not proof.", "bounded exhaustive enumeration on the real planner + " + T_PYVC + " for the executor part"),
+ "C01": ("proof", "5.1", "Call-site precondition of Operation.start_execution (every dependency SUCCEEDED) proved at the only call site for all graphs/orders; SUCCEEDED is only set after finish_execution returned normally (exit status 0 of a reaped pid); waiting_on == number of uncompleted dependencies (counting lemmas by induction) so an operation becomes ready only when all its dependencies completed. Planner (create_plan_for, proved): the operation of every executed dependency of a lowered task is one of its execution dependencies. Assumed and bounded: the deps_of mirror of the edges (A-PLAN, exhaustive small DAGs). Known finding K1 (dependency reached only through a cached task).", T_PYVC + " + bounded planner / executor runs"),
+ "C02": ("proof", "5.2", "Planner create_plan_for proved for every closure (acyclic by C14), listing order, cache state and mode: each task is lowered to at most one operation (ghost phases NEW/OPEN/DONE/PRUNED, rank argument for the DFS stack), cached and executed are disjoint, the requested task and every dependency of a lowered task is lowered or cached, the progress total equals the number of operations, one cache decision per task; dependencies are listed once (_materialize_raw_task proved); executor side: each ready operation is dequeued and started at most once. Bounded only: 'nothing outside the needed closure is lowered' beyond membership in the closure and the cache decision (exhaustive DAGs with <= 4 tasks on the real planner).", T_PYVC + " + bounded planner / executor runs"),
  "C03": ("proof", "5.3", "Executor class invariant (waiting_on counts uncompleted dependencies; an operation starts only if all its dependencies SUCCEEDED, is SKIPPED iff one did not; FAILED keeps its error) proved preserved by every executor method for all graphs / completion orders; report contract (exit 0 only if everything succeeded, raises the first failure); stop-early: nothing starts after a failure, in-flight groups SIGTERMed; CLI wrapper maps ConductorError to exit 1. The closing step 'every planned operation is completed when the loop ends' is a stated assumption of the proof (ghost assume) and decided by the bounded executor driver.", T_PYVC + " + bounded executor driver"),
  "C04": ("proof", "5.4", "Slot / mode invariant of the real Executor proved inductive for all graphs, jobs values and completion orders: in-flight <= JOBS, a sequential operation is alone in flight, in-flight slots distinct, in [0,JOBS) and disjoint from the free list, slot None iff not parallelizable or JOBS == 1; COND_SLOT exported iff a slot was assigned (postcondition of the real start_execution over the Popen call); --jobs validation.", T_PYVC),
  "C05": ("proof", "5.5", "The real search loop is proved equal to the documented selection rule (macro is_selected) for every index content, commit graph and HEAD, unbounded; --at-least rule, flag validation, ancestor check in main and the argv of the git calls by contract.", T_PYVC),
@@ -21,7 +21,7 @@ CLAIMS = {
  "C15": ("proof", "5.15", "Exception-flow obligations with exec() modelled as 'may raise any Exception': nothing but a ConductorError carrying the file leaves parse_cond_file / _run_include; unique names per file (shim); include() only of .cond files; name grammar; CLI wrapper => ERROR + exit 1; --check returns before planning. The schema validator itself is bounded.", T_PYVC + " + bounded validator runs"),
  "C16": ("proof", "5.16", "Asynchronous-abort obligations at every statement boundary (and after every call before its result is stored) of start_execution / finish_execution: the abort leaves as ConductorAbort, a spawned child is signalled or gone, nothing is recorded for a task that did not exit 0; an abort raised inside an included file stays an abort. Known findings K2, K3 (abort between spawn and registration). Found and fixed by this check: K5.", T_PYVC + " + abort injection at every line of the real code"),
  "C17": ("proof", "5.17", "from_cwd returns the first of [cwd] ++ parents(cwd) that contains the config file (loop contract), MissingProjectRoot iff none; gc renders paths through a helper proved never to raise. Equality of effects from two directories is bounded.", T_PYVC + " + bounded runs from different directories"),
- "C18": ("proof", "5.18", "CombineOutputs.start_execution over a ghost file system: every non-empty dependency directory is linked under the dependency's name and the link resolves to that directory (relpath law), entries of other names untouched, foreign entries never replaced (conflict error). Planner side (which directory is linked): bounded.", T_PYVC + " + bounded planner runs"),
+ "C18": ("proof", "5.18", "CombineOutputs.start_execution over a ghost file system: every non-empty dependency directory is linked under the dependency's name and the link resolves to that directory (relpath law), entries of other names untouched, foreign entries never replaced (conflict error). Planner side proved: the combine operation is given the output directory of every dependency that has one, and nothing but its dependencies (loop contract with ghost witnesses); stability of a task's output directory during planning is assumed (bounded: planner snapshot check).", T_PYVC + " + bounded planner runs"),
  "C19": ("proof", "5.19", "run_experiment_group proved equal to its documented expansion for every finite instance sequence: ghost log of the constructor calls == [run_experiment(name, run, parallelizable, args, options, deps (+ previous when chained))] ++ [combine(name, [':'+e.name])]; rejected only for a non-instance, a duplicate name or a rejecting constructor.", T_PYVC),
  "C20": ("proof", "5.20", "The real regular expressions (translated with Python's own regex parser on every run) are proved language-equal to the documented grammar as SMT regexes; decomposition / canonical form / structural equality by contract; injectivity of output directory names as string lemmas.", T_PYVC + " (string theory: cvc5 + z3)"),
 }
